@@ -33,6 +33,10 @@ EXPLANATION += ' R3 thereby implies rotation invariance and independence of the 
 EXPLANATION += " R5 also rejects overwrite_a/overwrite_b=True on the caller's matrices and accepts the transposed (symmetric) overlap as metric."
 TECHNIQUE += '; evaluation of set_four_index_element and check_dm'
 EXPLANATION += ' R1 evaluates set_four_index_element for all 256 index tuples of a 4x4x4x4 symbolic array (exactly the symmetry orbit is written); R4 evaluates check_dm with stubbed natural occupations on 120 (eps, occ_max, min, max) combinations around both bounds.'
+# --- metadata added for batch 7
+TECHNIQUE += '; representative-case evaluation where the routine branches on its data'
+EXPLANATION += ' R1 evaluates set_four_index_element on an array with earlier content and with a symbolic and a zero value (an early return on zero leaves the old content). R3: when volume() branches on its data (a shortcut for orthogonal cells) the symbolic case decides generic cells only, so integer cells of every orthogonality pattern, in both orientations, are evaluated against the exact Gram determinant.'
+# --- end metadata batch 7
 TRUSTED = ["CPython ast parser", "scipy.linalg.eigh(a, b) solves a v = w b v and returns (w, v)", "np.linalg.norm and abs are non-negative"]
 
 DOC_TRUE = {"y", "yes", "t", "true", "on", "1"}
